@@ -277,6 +277,12 @@ def build(S):
 
     with numpy_shimmed():
         S.under_contract("hypnotoad.core.mesh:MeshRegion.calcZShift")
+        # history-independence of the derived quantities: regridding in place never leaves cached
+        # distances of the OLD points behind, and a second geometry() pass accumulates nothing
+        from . import C05_cache
+
+        C05_cache.add(S)
+        S.contract("calcZShift[two-region open chain, called twice]", "hypnotoad.core.mesh:MeshRegion.calcZShift", chainkit.run_zshift(False, repeat=2), shape="two regions, nx=1, ny=1; second call on the same regions", assume_safety="R>0 and Bp!=0 at the fine-contour nodes (geometry preconditions)")
         S.contract("calcZShift[open chain, guard points and a fine contour extended below the start]", "hypnotoad.core.mesh:MeshRegion.calcZShift", chainkit.run_zshift(False, start1=2, fine_offset=3), shape="two regions, nx=1; contour start index 2, fine-contour start index 5", assume_safety="R>0 and Bp!=0 at the fine-contour nodes (geometry preconditions)")
 
 
